@@ -18,6 +18,15 @@ type structObl struct {
 	Name   string
 	OK     bool
 	Detail string
+	// Offenders: the individual sites that break the obligation (writers: obligations); a known finding
+	// names one site, so any other offender is still reported
+	Offenders []structOffender
+}
+
+type structOffender struct {
+	Func string // function key
+	Pos  string // file:line
+	What string
 }
 
 // spec syntax:
@@ -83,7 +92,7 @@ func (eng *Engine) writersObl(spec string, strict bool) structObl {
 	name := "writers:" + spec
 	parts := strings.SplitN(spec, "=", 2)
 	if len(parts) != 2 {
-		return structObl{name, false, "bad spec"}
+		return structObl{Name: name, OK: false, Detail: "bad spec"}
 	}
 	target := parts[0] // pkg.Type.field
 	allowed := map[string]bool{}
@@ -91,6 +100,7 @@ func (eng *Engine) writersObl(spec string, strict bool) structObl {
 		allowed[strings.TrimSpace(a)] = true
 	}
 	var bad []string
+	var offenders []structOffender
 	found := false
 	for _, fn := range eng.repoFunctions() {
 		for _, b := range fn.Blocks {
@@ -144,18 +154,20 @@ func (eng *Engine) writersObl(spec string, strict bool) structObl {
 				k := funcKey(outermost(fn))
 				if !allowed[k] {
 					bad = append(bad, fmt.Sprintf("%s at %s", k, eng.prog.Fset.Position(st.Pos())))
+					p := eng.prog.Fset.Position(st.Pos())
+					offenders = append(offenders, structOffender{k, fmt.Sprintf("%s:%d", p.Filename, p.Line), "store to " + target})
 				}
 			}
 		}
 	}
 	// composite literals &T{field: v} also initialise the field through FieldAddr+Store in SSA, so they are covered above
 	if !found {
-		return structObl{name, false, "contract-target-missing: no store to " + target + " found at all"}
+		return structObl{Name: name, OK: false, Detail: "contract-target-missing: no store to " + target + " found at all"}
 	}
 	if len(bad) > 0 {
-		return structObl{name, false, "store to " + target + " outside the permitted writers: " + strings.Join(bad, "; ")}
+		return structObl{Name: name, OK: false, Detail: "store to " + target + " outside the permitted writers: " + strings.Join(bad, "; "), Offenders: offenders}
 	}
-	return structObl{name, true, ""}
+	return structObl{Name: name, OK: true, Detail: ""}
 }
 
 // mapwriters:<pkg>.<Type>.<field>=<funcKey>,…  — only these functions update/delete entries of the map held in that field
@@ -163,7 +175,7 @@ func (eng *Engine) mapWritersObl(spec string) structObl {
 	name := "mapwriters:" + spec
 	parts := strings.SplitN(spec, "=", 2)
 	if len(parts) != 2 {
-		return structObl{name, false, "bad spec"}
+		return structObl{Name: name, OK: false, Detail: "bad spec"}
 	}
 	target := parts[0]
 	allowed := map[string]bool{}
@@ -206,12 +218,12 @@ func (eng *Engine) mapWritersObl(spec string) structObl {
 		}
 	}
 	if !found {
-		return structObl{name, false, "contract-target-missing: no update of map " + target + " found at all"}
+		return structObl{Name: name, OK: false, Detail: "contract-target-missing: no update of map " + target + " found at all"}
 	}
 	if len(bad) > 0 {
-		return structObl{name, false, "update of map " + target + " outside the permitted writers: " + strings.Join(bad, "; ")}
+		return structObl{Name: name, OK: false, Detail: "update of map " + target + " outside the permitted writers: " + strings.Join(bad, "; ")}
 	}
-	return structObl{name, true, ""}
+	return structObl{Name: name, OK: true, Detail: ""}
 }
 
 // nocall:from1,from2->to1,to2 : no static call path from any `from` to any `to`.
@@ -223,13 +235,13 @@ func (eng *Engine) noCallObl(spec string, direct bool) structObl {
 	}
 	parts := strings.SplitN(spec, "->", 2)
 	if len(parts) != 2 {
-		return structObl{name, false, "bad spec"}
+		return structObl{Name: name, OK: false, Detail: "bad spec"}
 	}
 	var from []*ssa.Function
 	for _, k := range strings.Split(parts[0], ",") {
 		f := eng.FuncByKey(strings.TrimSpace(k))
 		if f == nil {
-			return structObl{name, false, "contract-target-missing: " + k}
+			return structObl{Name: name, OK: false, Detail: "contract-target-missing: " + k}
 		}
 		from = append(from, f)
 	}
@@ -237,7 +249,7 @@ func (eng *Engine) noCallObl(spec string, direct bool) structObl {
 	for _, k := range strings.Split(parts[1], ",") {
 		k = strings.TrimSpace(k)
 		if eng.FuncByKey(k) == nil {
-			return structObl{name, false, "contract-target-missing: " + k}
+			return structObl{Name: name, OK: false, Detail: "contract-target-missing: " + k}
 		}
 		to[k] = true
 	}
@@ -255,7 +267,7 @@ func (eng *Engine) noCallObl(spec string, direct bool) structObl {
 			for x := f; x != nil; x = parent[x] {
 				path = append([]string{funcKey(x)}, path...)
 			}
-			return structObl{name, false, "static call path: " + strings.Join(path, " -> ")}
+			return structObl{Name: name, OK: false, Detail: "static call path: " + strings.Join(path, " -> ")}
 		}
 		isFrom := false
 		for _, ff := range from {
@@ -295,5 +307,5 @@ func (eng *Engine) noCallObl(spec string, direct bool) structObl {
 			visit(an)
 		}
 	}
-	return structObl{name, true, ""}
+	return structObl{Name: name, OK: true, Detail: ""}
 }
